@@ -39,7 +39,7 @@ fn ev(e: Event) -> Ev {
     match e {
         Event::LocalInsert { namespace, entry } => Ev { local: true, entry, from: None, download: None, status: None, ns: namespace },
         Event::RemoteInsert { namespace, entry, from, should_download, remote_content_status } => {
-            Ev { local: false, entry, from: Some(from), download: Some(should_download), status: Some(status_code(remote_content_status)), ns: namespace }
+            Ev { local: false, entry, from: Some(from), download: if policy_unreadable() { None } else { Some(should_download) }, status: Some(status_code(remote_content_status)), ns: namespace }
         }
     }
 }
@@ -59,6 +59,26 @@ pub fn run(ctx: &mut Ctx) {
         }
         iroh_docs::verif::set_clock(0);
     }
+}
+
+/// Set while the policy row of the document under test cannot be decoded (see `one`): what the
+/// download flag of an event should be is then left open and not compared.
+static POLICY_UNREADABLE: std::sync::atomic::AtomicBool = std::sync::atomic::AtomicBool::new(false);
+fn policy_unreadable() -> bool {
+    POLICY_UNREADABLE.load(std::sync::atomic::Ordering::SeqCst)
+}
+
+/// Overwrite the stored download policy of `ns` with bytes that do not decode (plain redb).
+fn corrupt_policy_row(path: &std::path::Path, ns: NamespaceId) -> anyhow::Result<()> {
+    const POLICY: redb::TableDefinition<&[u8; 32], &[u8]> = redb::TableDefinition::new("download-policy-1");
+    let db = redb::Database::create(path)?;
+    let tx = db.begin_write()?;
+    {
+        let mut t = tx.open_table(POLICY)?;
+        t.insert(ns.as_bytes(), &[0xFFu8, 0xFF, 0xFF, 0xFF, 0x7F][..])?;
+    }
+    tx.commit()?;
+    Ok(())
 }
 
 async fn exact(h: &SyncHandle, ns: NamespaceId, e: &SignedEntry) -> Option<SignedEntry> {
@@ -84,6 +104,34 @@ async fn one(ctx: &mut Ctx, case: u64, rng: &mut Rng) {
     // (one channel may be subscribed to several documents) and is then closed again
     let other_doc = iroh_docs::NamespaceSecret::from_bytes(&[0xC1; 32]);
     store.import_namespace(iroh_docs::Capability::Write(other_doc.clone())).unwrap();
+    // One case in ten runs on a database file in which the stored policy of the document cannot be
+    // decoded (a storage fault; added after seeded change agent-C12-8). Entries still enter the
+    // replica, so each must still be announced; only the download flag is not judged until a policy
+    // has been set again.
+    POLICY_UNREADABLE.store(false, std::sync::atomic::Ordering::SeqCst);
+    let scratch = crate::util::Scratch::new();
+    if case % 10 == 3 {
+        let path = scratch.path("c12-fault");
+        let mut fs = Store::persistent(&path).expect("create");
+        if read_only {
+            fs.import_namespace(iroh_docs::Capability::Read(ns)).unwrap();
+        } else {
+            import_write(&mut fs, &uni.ns);
+        }
+        for a in &uni.authors {
+            fs.import_author(a.clone()).unwrap();
+        }
+        fs.import_namespace(iroh_docs::Capability::Write(other_doc.clone())).unwrap();
+        fs.flush().unwrap();
+        drop(fs);
+        if let Err(e) = corrupt_policy_row(&path, ns) {
+            ctx.harness_error(format!("corrupting the policy row failed: {e:?}"));
+            return;
+        }
+        store = Store::persistent(&path).expect("reopen");
+        POLICY_UNREADABLE.store(true, std::sync::atomic::Ordering::SeqCst);
+        ctx.count("cases_with_an_undecodable_policy_row", 1);
+    }
     let h = act::spawn(store);
     let mut subs: Vec<Sub> = vec![];
     let mut next_sub = 0;
@@ -183,7 +231,9 @@ async fn one(ctx: &mut Ctx, case: u64, rng: &mut Rng) {
             }
             2 => {
                 let p = gen_policy(rng);
-                let _ = h.set_download_policy(ns, real(&p)).await;
+                if h.set_download_policy(ns, real(&p)).await.is_ok() {
+                    POLICY_UNREADABLE.store(false, std::sync::atomic::Ordering::SeqCst);
+                }
                 trace.push(format!("policy {p:?}"));
                 policy = Some(p);
                 expect = Some(vec![]);
@@ -347,7 +397,9 @@ async fn one(ctx: &mut Ctx, case: u64, rng: &mut Rng) {
                     // messages are announced with the policy in force when they are applied
                     if rng.chance(1, 4) {
                         let p = gen_policy(rng);
-                        let _ = h.set_download_policy(ns, real(&p)).await;
+                        if h.set_download_policy(ns, real(&p)).await.is_ok() {
+                            POLICY_UNREADABLE.store(false, std::sync::atomic::Ordering::SeqCst);
+                        }
                         trace.push(format!("  (policy changed between two messages: {p:?})"));
                         policy = Some(p);
                         ctx.count("policy_changes_inside_a_session", 1);
@@ -573,6 +625,13 @@ fn check_exact(ctx: &mut Ctx, case: u64, subs: &mut [Sub], want: &[Ev], trace: &
         let got: Vec<Ev> = act::drain(rx).into_iter().map(ev).collect();
         ctx.count("subscriber_drains", 1);
         *produced += got.len();
+        let want_norm: Vec<Ev>;
+        let want: &[Ev] = if policy_unreadable() {
+            want_norm = want.iter().cloned().map(|mut e| { e.download = None; e }).collect();
+            &want_norm
+        } else {
+            want
+        };
         if s.active {
             if got != want {
                 let sig = if got.len() > want.len() {
@@ -669,7 +728,7 @@ async fn check_multi(
                 ctx.violation(case, "event-kind-or-peer-wrong", json!({"events": names(&got), "trace": trace}));
                 return false;
             }
-            if g.download != Some(want_dl) {
+            if !policy_unreadable() && g.download != Some(want_dl) {
                 ctx.violation(case, "download-flag-differs-from-policy", json!({"key": hex::encode(g.entry.key()), "trace": trace}));
                 return false;
             }
